@@ -197,6 +197,13 @@ impl Container {
         let pack_reader = self
             .locator
             .locate(pack_info.uuid, &pack_info.pack_location)?;
+        // What has been located may be the pack itself or a container (a file) containing
+        // the pack. And as the location is only a hint, it may even be another pack.
+        // The identity of a pack is its uuid.
+        let pack_reader = match pack_reader {
+            None => None,
+            Some(r) => open_as_container_pack(r)?.get_pack_reader(&pack_info.uuid),
+        };
         match pack_reader {
             None => Ok(Some(MayMissPack::MISSING(pack_info.clone()))),
             Some(r) => Ok(Some(MayMissPack::FOUND(ContentPack::new(r)).transpose()?)),
